@@ -54,7 +54,14 @@ func TestProbe(t *testing.T) {
 			t.Fatal(err)
 		}
 		t.Log("SCRIPT", s)
-		et, err := env.StartTask("t"+kit.Unique(), s, kapacitor.BatchTask, nil)
+		id := "t" + kit.Unique()
+		closeAll := func() {
+			for _, c := range env.TM.BatchCollectors(id) {
+				c.Close()
+			}
+			env.Close()
+		}
+		et, err := env.StartTask(id, s, kapacitor.BatchTask, nil)
 		if err != nil {
 			t.Log("  start err:", err)
 			env.Close()
@@ -64,7 +71,7 @@ func TestProbe(t *testing.T) {
 		bqs, err := et.BatchQueries(start, start.Add(16*time.Second))
 		if err != nil {
 			t.Log("  bq err:", err)
-			env.Close()
+			closeAll()
 			continue
 		}
 		for _, bq := range bqs {
@@ -79,6 +86,6 @@ func TestProbe(t *testing.T) {
 				t.Logf("    cond=%T dims=%v fill=%v/%v", sel.Condition, sel.Dimensions, sel.Fill, sel.FillValue)
 			}
 		}
-		env.Close()
+		closeAll()
 	}
 }
